@@ -613,25 +613,33 @@ def dof_oracle(v, fb):
     return None
 
 
-def recovery(seed, nu_true, n=20000):
-    """loose sanity check (never a pass criterion of the correspondence): bivariate t sample with known parameters"""
+def recovery(seed, nu_true, n=20000, d=2):
+    """loose sanity check (never a pass criterion of the correspondence): d-variate t sample with known parameters,
+    compared in whitened coordinates (tolerances several sampling standard deviations wide at n = 20000)"""
     g = np.random.default_rng(seed)
-    L = np.array([[1.5, 0.0], [0.4, 0.8]])
-    Sig = L @ L.T
-    m = np.array([1.0, -2.0])
-    z = g.standard_normal((n, 2)) / np.sqrt(g.chisquare(nu_true, size=(n, 1)) / nu_true)
+    if d == 2:
+        L = np.array([[1.5, 0.0], [0.4, 0.8]])
+        m = np.array([1.0, -2.0])
+    else:
+        A = g.standard_normal((d, d))
+        L = np.linalg.cholesky(A @ A.T / d + np.eye(d))
+        m = g.uniform(-1.0, 1.0, d)
+    z = g.standard_normal((n, d)) / np.sqrt(g.chisquare(nu_true, size=(n, 1)) / nu_true)
     x = m + z @ L.T
+    tag = f"t_{nu_true} sample n={n} d={d} (default_rng({seed}))"
     try:
         mu, S, nu = _quiet_fit(x)
     except Exception as e:  # noqa
         return f"fit_mvstud raised {type(e).__name__}: {e}"
-    sd = np.sqrt(np.diag(Sig))
     if not (math.isfinite(nu) and 0.75 * nu_true <= nu <= 1.4 * nu_true):
-        return f"t_{nu_true} sample n={n} (default_rng({seed})): fitted nu={nu!r}"
-    if np.any(np.abs(mu - m) > 0.06 * sd):
-        return f"t_{nu_true} sample n={n} (default_rng({seed})): fitted mu={mu.tolist()} vs {m.tolist()}"
-    if np.any(np.abs(S - Sig) > 0.12 * np.outer(sd, sd)):
-        return f"t_{nu_true} sample n={n} (default_rng({seed})): fitted Sigma={S.tolist()} vs {Sig.tolist()}"
+        return f"{tag}: fitted nu={nu!r}"
+    Li = np.linalg.inv(L)
+    m_err = float(np.max(np.abs(Li @ (np.asarray(mu) - m))))
+    s_err = float(np.max(np.abs(Li @ np.atleast_2d(S) @ Li.T - np.eye(d))))
+    if m_err > 0.08:
+        return f"{tag}: fitted location off by {m_err:.3g} (whitened units)"
+    if s_err > 0.15:
+        return f"{tag}: fitted scale matrix off by {s_err:.3g} (whitened, relative)"
     return None
 
 
@@ -640,7 +648,7 @@ def _oracle_case(case):
     if kind == "dof":
         return dof_oracle(hex2f(case["dof_hex"]), case["fb"])
     if kind == "recovery":
-        return recovery(case["seed"], case["nu_true"])
+        return recovery(case["seed"], case["nu_true"], d=case.get("d", 2))
     n, d = case["shape"]
     data = np.array([hex2f(h) for h in case["data_hex"]], dtype=float).reshape(n, d)
     if kind == "noraise":
@@ -733,9 +741,12 @@ def search(tier, hints):
         perm, pw, shift = transforms(data)
         if consider(dict(base, kind="equiv", perm=perm, pw=pw, shift=shift)):
             return found
-    # 5. recovery of the generating parameters (loose)
-    for seed, nu_true in ((0, 3), (1, 5), (2, 3)) if tier == "quick" else ((0, 3), (1, 5), (2, 3), (3, 8), (4, 4), (5, 2.5)):
-        if consider({"kind": "recovery", "seed": seed, "nu_true": nu_true}):
+    # 5. recovery of the generating parameters (loose): moderate and heavy tails, low and higher dimension
+    cases = [(0, 3, 2), (1, 5, 2), (2, 1, 2), (3, 2, 5), (4, 3, 8), (5, 1.5, 6), (6, 2, 1)]
+    if tier != "quick":
+        cases += [(7, 8, 2), (8, 4, 3), (9, 2.5, 2), (10, 1, 8), (11, 0.7, 3), (12, 12, 4)]
+    for seed, nu_true, d in cases:
+        if consider({"kind": "recovery", "seed": seed, "nu_true": nu_true, "d": d}):
             return found
     return found
 
